@@ -265,7 +265,7 @@ def run_job(job):
                 dpath = os.path.join(workdir, f"decisions_in_{s}.txt")
                 with open(dpath, "w") as fh:
                     fh.write("\n".join(str(x) for x in job["decisions"]) + "\n")
-                plan = Plan(pseed, "replay", log_level=1, decisions_in=dpath)
+                plan = Plan(pseed, "replay", log_level=1, decisions_in=dpath, base_strategy=strategy)
             r = sim_link(argv, workdir, plan, tag=f"s{s}", env_extra=env)
             check_sim_health(r, f"arch job {index} schedule {s}")
             if job.get("want_decisions"):
